@@ -309,6 +309,50 @@ func SpecMatch(pattern string, hasWild bool, s string) bool {
 //@   ensures[C09] rs.e.count - card(rs.subs) == old(rs.e.count - card(rs.subs))
 //@   safety[C15]
 
+// --- system reset re-fetch (C12, C03, C19) --------------------------------------------
+
+//@ func (*ResourceSubscription).processResetGetResponse
+//@   trusted
+//@   requires rs != nil
+
+// handleResetResource: a resource that is already being re-fetched is left alone; otherwise it
+// is marked as resetting and exactly one get request for the resource, carrying the normalised
+// query of this variant, is issued - directly, or through the throttle.
+//@ func (*ResourceSubscription).handleResetResource
+//@   requires rs != nil && rs.e != nil && rs.e.cache != nil && rs.e.cache.mq != nil && (t != nil ==> predThrottleInv(t))
+//@   ensures[C12] old(rs.resetting) ==> callcount("SendRequest") == old(callcount("SendRequest")) && callcount("Add") == old(callcount("Add")) && rs.resetting
+//@   ensures[C12] !old(rs.resetting) ==> rs.resetting
+//@   ensures[C12] !old(rs.resetting) && t == nil ==> callcount("SendRequest") == old(callcount("SendRequest")) + 1 && callcount("Add") == old(callcount("Add"))
+//@   ensures[C12] !old(rs.resetting) && t != nil ==> callcount("Add") == old(callcount("Add")) + 1
+//@   assert[C12,C14] rs.e.cache.mq.SendRequest#2: arg0 == "get." + rs.e.ResourceName
+//@   safety[C15]
+//@ closure (*ResourceSubscription).handleResetResource#1
+//@   requires rs != nil && rs.e != nil && rs.e.cache != nil && rs.e.cache.mq != nil && t != nil && subj == "get." + rs.e.ResourceName
+//@   ensures[C12,C19] callcount("SendRequest") == old(callcount("SendRequest")) + 1
+//@   assert[C12,C14] rs.e.cache.mq.SendRequest#1: arg0 == "get." + rs.e.ResourceName
+//@   assigns nothing
+//@   safety[C15]
+// The throttle slot is released exactly once per answer, whatever the answer is.
+//@ closure (*ResourceSubscription).handleResetResource#2
+//@   requires rs != nil && rs.e != nil && rs.e.cache != nil && t != nil
+//@   assumes predThrottleInv(t) && t.running > 0
+//@   ensures[C19] callcount("Done") == old(callcount("Done")) + 1
+//@   ensures[C12] callcount("Enqueue") == old(callcount("Enqueue")) + 1
+//@   safety[C15]
+// The answer ends the resetting state before it is processed, whatever the answer is.
+//@ closure (*ResourceSubscription).handleResetResource#3
+//@   requires rs != nil
+//@   assert[C03,C12] rs.processResetGetResponse#1: !rs.resetting
+//@   safety[C15]
+//@ closure (*ResourceSubscription).handleResetResource#4
+//@   requires rs != nil && rs.e != nil && rs.e.cache != nil
+//@   ensures[C12] callcount("Enqueue") == old(callcount("Enqueue")) + 1
+//@   safety[C15]
+//@ closure (*ResourceSubscription).handleResetResource#5
+//@   requires rs != nil
+//@   assert[C03,C12] rs.processResetGetResponse#2: !rs.resetting
+//@   safety[C15]
+
 //@ func (*Cache).Subscribe
 //@   requires c != nil && sub != nil
 //@   assumes predCacheOK(c)
